@@ -36,6 +36,7 @@ class TraceTooLarge(Exception):
         self.recorder = recorder
 
 
+HEAVY_TO_JUDGE = {"arith", "unary", "call", "deriv", "reduce", "polydiv"}     # judged by multiplying polynomials out
 WEIGHT_LIMIT = 1500       # coefficient entries in the results of one call (zero terms kept under retain_coefficients pile up)
 
 
@@ -158,7 +159,7 @@ class Recorder:
                 ev[k] = v
         ev.update(extra)
         weight = sum(len(r.get("rows", ())) * max(1, len(r["coefs"][0]) if r.get("coefs") else 1) for r in res if r.get("kind") == "poly")
-        if weight > WEIGHT_LIMIT:
+        if weight > WEIGHT_LIMIT and act in HEAVY_TO_JUDGE and self.events:
             # the trace ends BEFORE this event: multiplying out polynomials of thousands of terms in TLA+ takes TLC hours
             self.meta["truncated"] = "result of event %d would have %d coefficient entries" % (len(self.events) + 1, weight)
             raise TraceTooLarge(self)
